@@ -615,6 +615,9 @@ fn execute_inner(
     log: &mut Vec<String>,
     nonfatal: &mut Vec<Violation>,
 ) -> RunEnd {
+    // non-local targets of every lambda seen so far in the session (for the write set of a
+    // statement that calls something)
+    let mut session_lambda_writes: std::collections::BTreeSet<String> = std::collections::BTreeSet::new();
     for (idx, st) in script.stmts.iter().enumerate() {
         let src = render_top(&st.ex);
         // faults
@@ -822,6 +825,19 @@ fn execute_inner(
         // model
         let top = sess.model.top.clone();
         sess.model.steps = 0;
+        // the variables this statement may write, with their values before it: what a statement
+        // that FAILS leaves in the variables it names is not pinned down by any property beyond
+        // "only addressed slots change" -- both the old value (an atomic failure) and the model's
+        // partially updated value are accepted below
+        session_lambda_writes.extend(crate::freevars::lambda_free_writes(&st.ex));
+        let mut may_write = crate::freevars::writes(&st.ex, false);
+        if crate::freevars::contains_call(&st.ex) {
+            may_write.extend(session_lambda_writes.iter().cloned());
+        }
+        let pre: Vec<(String, V)> = may_write
+            .iter()
+            .filter_map(|n| Model::lookup(&sess.model.top, n).map(|v| (n.clone(), v)))
+            .collect();
         let model_r = sess.model.eval(&top, &st.ex);
         let model_out = match &model_r {
             Ok(v) => match sess.model_canon(&v.clone()) {
@@ -856,7 +872,55 @@ fn execute_inner(
                     });
                 }
             }
-            (Outcome::Raised, Outcome::Raised) => stats.raised += 1,
+            (Outcome::Raised, Outcome::Raised) => {
+                stats.raised += 1;
+                let regions = crate::region::regions(&st.ex);
+                let names = sess.model.struct_names();
+                for (name, old) in pre.iter() {
+                    let cur = match Model::lookup(&sess.model.top, name) {
+                        Some(v) => v,
+                        None => continue,
+                    };
+                    let ms = match sess.model_canon(&cur) {
+                        Ok(a) => a,
+                        _ => continue,
+                    };
+                    let is = match sess.observe_var(name) {
+                        Some(is) => is,
+                        None => continue,
+                    };
+                    if is == ms {
+                        continue;
+                    }
+                    // the implementation left something else in a variable the failed statement
+                    // names: fine when that is the old value (the statement failed atomically) ...
+                    if let Ok(os) = sess.model_canon(old) {
+                        if is == os {
+                            sess.model.adopt_var(name, old.clone());
+                            sess.model.probe("failed_statement_left_old_value");
+                            continue;
+                        }
+                    }
+                    // ... or as long as only the slots it addresses differ from before
+                    let new_v = match Env::try_borrow_get_var(&sess.env, name) {
+                        Ok(o) => match obs::obj_to_v(&o, &names) {
+                            Some(v) => v,
+                            None => continue,
+                        },
+                        Err(_) => continue,
+                    };
+                    let mut paths: Vec<Vec<crate::region::Step>> =
+                        regions.iter().filter(|(n, _)| n == name).map(|(_, p)| p.clone()).collect();
+                    if paths.is_empty() {
+                        // written some other way (a closure the statement calls): addressed as a whole
+                        paths.push(Vec::new());
+                    }
+                    if crate::region::allowed(old, &new_v, &paths) {
+                        sess.model.adopt_var(name, new_v);
+                        sess.model.probe("failed_statement_state_adopted");
+                    }
+                }
+            }
             (Outcome::Escaped(a), Outcome::Escaped(b)) if a == b => {}
             (a, b) => {
                 log.push(format!("{} => OUTCOME MISMATCH", src));
